@@ -289,3 +289,12 @@ def run_sampler(case):
 
 def run_case(case):
     return {"book": run_book, "taylor": run_taylor, "ladder": run_ladder, "sampler": run_sampler}[case["type"]](case)
+
+
+def finalize(results, tier, seed):
+    """a quadrature that does not converge decides nothing: more than 10 % such ladders (none occur on the pinned tree) => inconclusive"""
+    lad = sum(1 for r in results if r["case"].get("type") == "ladder")
+    bad = sum((r.get("counters") or {}).get("quadrature_not_converged", 0) for r in results)
+    if lad and bad > max(1, 0.1 * lad):
+        return [ev("quadrature/too-many-not-converged", None, key="C05/quadrature-not-converged", hard=True, ladders=lad, not_converged=bad)]
+    return []
